@@ -37,6 +37,14 @@ def explore(ctx, res, replay=None):
                 'x0 := 2147483647', 'x0 := 9223372036854775807', 'include "nofile" x := 1', 'x0 := 1; x1 := 2; x2 := x1 + 3'):
         inputs.append(({'m': txt}, 'm'))
     inputs.append(({}, 'absent'))
+    # one input per kind of diagnostic (each compiled several times per process, next to inputs that share names with it):
+    # a message, a counter or a table remembered from one compilation must not change another
+    for txt in ('x1 := 7;\nx0 := RUN sqare WITH x1 END', 'y := RUN sqare WITH 1 END; z := RUN sqare WITH 2 END',
+                'PROGRAM sqare IN a DO x0 := a END\nx0 := RUN sqare WITH 3 END', 'PROGRAM f IN a DO x0 := a END\nx := RUN f WITH 1, 2 END',
+                'PROGRAM f IN a, a DO x0 := a END\nx := RUN f WITH 1, 2 END', 'GOTO nowhere', 'l: x := 1; GOTO l2', 'x := 1 y := 2', 'x := ; LOOP DO END',
+                'LOOP x DO y := 1', 'x := RUN f WITH 1 END; PROGRAM f IN a DO x0 := a END', 'DEFINE a AS b END DEFINE DEFINE b AS a END DEFINE a',
+                'DEFINE foo <V> AS x := $7 END DEFINE foo 1', 'DEFINE TWICE <P> AS $0 ; $0 END DEFINE TWICE x := 1', 'include "gone.theo"\nx := 1', 'x := 1 @ 2'):
+        inputs.append(({'main.theo': txt}, 'main.theo'))
     # near-duplicates: inputs that agree in everything a cache key could look at (file names, definition sites, patterns,
     # program names) and differ in one detail; a result remembered from one must not be served for the other
     for c in (1, 2, 3):
